@@ -147,7 +147,9 @@ def interp_case(draw):
     for _ in range(n - 1):
         hs.append(hs[-1] + draw(st.floats(2.0, 120.0)))
     return {"heights": hs, "B": draw(st.floats(0.05, 15.0)), "r_b": draw(st.floats(0.05, 0.12)), "N": draw(st.integers(1, 400)),
-            "noise": [draw(st.floats(-0.3, 0.3)) for _ in range(n)]}
+            "noise": [draw(st.floats(-0.3, 0.3)) for _ in range(n)],
+            # the family is a dict keyed by height: the order in which the heights were stored must not matter
+            "order": draw(st.permutations(list(range(n))))}
 
 
 def check_interp(case, rec):
@@ -159,8 +161,9 @@ def check_interp(case, rec):
     for h, nz in zip(hs, case["noise"]):
         base = surrogate.surrogate_g(lt, h, case["r_b"], case["B"], case["N"])
         g_lts[h] = [v * (1 + nz) + nz for v in base]  # the family need not be smooth in H
+    ins = [hs[i] for i in case.get("order", range(len(hs)))]  # insertion order of the stored heights
     for q in hs:
-        gf = GFunction(b=case["B"], d=2.0, r_b_values={h: case["r_b"] for h in hs}, g_lts={h: list(v) for h, v in g_lts.items()},
+        gf = GFunction(b=case["B"], d=2.0, r_b_values={h: case["r_b"] for h in ins}, g_lts={h: list(g_lts[h]) for h in ins},
                        log_time=lt, bore_locations=[(0.0, 0.0)] * case["N"])
         with warnings.catch_warnings():
             warnings.simplefilter("ignore")
@@ -173,7 +176,7 @@ def check_interp(case, rec):
         if abs(float(rb) - case["r_b"]) > 1e-12:
             raise Violation(f"stored radius {case['r_b']}, returned {float(rb)}", sig={"kind": "interp_rb"})
     # queries on the same object in a different order must agree too (interpolation table is cached)
-    gf = GFunction(b=case["B"], d=2.0, r_b_values={h: case["r_b"] for h in hs}, g_lts={h: list(v) for h, v in g_lts.items()},
+    gf = GFunction(b=case["B"], d=2.0, r_b_values={h: case["r_b"] for h in ins}, g_lts={h: list(g_lts[h]) for h in ins},
                    log_time=lt, bore_locations=[(0.0, 0.0)] * case["N"])
     with warnings.catch_warnings():
         warnings.simplefilter("ignore")
@@ -183,6 +186,8 @@ def check_interp(case, rec):
                 raise Violation("cached interpolation table returns a different curve at a stored height",
                                 sig={"kind": "interp_cached", "n": len(hs)})
     rec.cls(f"heights_{len(hs)}")
+    if ins != sorted(ins):
+        rec.cls("heights_stored_out_of_order")
     if len(hs) >= 3:
         rec.nontriv(case)
     rec.sample(case)
